@@ -224,6 +224,9 @@ def Expr.winsList : List Expr → List WinSpec
   | e :: es => e.wins ++ Expr.winsList es
 end
 
+def OrderItem.exprOf : OrderItem → Expr
+  | .mk e _ _ => e
+
 def SelItem.exprOf : SelItem → Option Expr
   | .expr e _ => some e
   | .star _ => none
